@@ -18,7 +18,7 @@ import AgeModel.File
 import AgeModel.Extracted.Funcs
 import Proofs.GoTieUnwrap
 import Proofs.GoTieScrypt
-import Proofs.GoTieEncrypt
+import Proofs.GoTieTape
 namespace AgeModel
 namespace GoTie
 open Extracted
